@@ -456,7 +456,11 @@ class C15(core.PropertyCheck):
                     if rng.random() < 0.25:
                         # a directive argument is taken as the author wrote it: runs of blanks, a line break in a long signature
                         ids = [rng.choice(["foo  bar", "foo\n   bar", "write  concern", "a \t b", "db.coll.find(\n  q)"])]
-                    items.append({"t": "obj", "domain": dom, "name": nm, "ids": ids, "title": self.g_title(rng)})
+                    title = self.g_title(rng)
+                    if any("\n" in i or "  " in i or "\t" in i for i in ids) and rng.random() < 0.7:
+                        # the title of such a target IS its argument, line break and all
+                        title = [["t", ids[0]]]
+                    items.append({"t": "obj", "domain": dom, "name": nm, "ids": ids, "title": title})
                 else:
                     t = self.g_title(rng) or [["t", "H"]]
                     items.append({"t": "heading", "id": rng.choice(["h", "top", "a-b", "std-label-a-b"]), "title": t})
@@ -757,6 +761,12 @@ class C15(core.PropertyCheck):
             return None
         if impl["exc"]:
             return f"building the inventory raised {impl['exc']}: {impl.get('msg')}"
+        for e in impl["generated"]:
+            # what the build exports must be something the line format can carry: one line per entry
+            if e["display"] is not None and ("\n" in e["display"] or not edge_ok(e["display"])):
+                back = next((x["display"] for x in impl["parsed"] if x["key"] == e["key"]), "<entry lost>")
+                return (f"entry changed: the generated entry {e['key']!r} has the display title {e['display']!r}, which one line of the inventory "
+                        f"cannot carry (read back as {back!r})")
         r = (self.roundtrip_oracle(impl["generated"], impl["parsed"], "generated inventory")
              or self.resolve_oracle(impl["generated"], defs_queries(impl["defs"]), impl["resolved"], "generated inventory")
              or (impl.get("rebase") and "resolving: " + impl["rebase"]))
